@@ -126,7 +126,7 @@ class ConditionalVerboseRule(BaseLintRule):
             return None
 
         metadata = context.metadata
-        config_keys = ("print_statements", "print-statements", "improper-logging")
+        config_keys = ("improper_logging", "improper-logging", "print_statements", "print-statements")
 
         for key in config_keys:
             if key in metadata:
